@@ -173,8 +173,9 @@ func (d *Device) handleABSEvent(ie *input.InputEvent) {
 	}
 
 	// prevent from repeating value that was already sent before
-	lastValue := d.lastAnalogValue[ie.Source.Name][ie.Event.Code]
-	if lastValue == value {
+	// (nothing has been sent yet for an axis without an entry, not even its rest value)
+	lastValue, seen := d.lastAnalogValue[ie.Source.Name][ie.Event.Code]
+	if seen && lastValue == value {
 		return
 	}
 	d.lastAnalogValue[ie.Source.Name][ie.Event.Code] = value
